@@ -670,11 +670,28 @@ def coef_text(f, e):
 
 
 def guards_of(f, n):
+    """conditions (text, '!' prefix for the else branch) of the if statements around n; a const bool local that is defined once stands for
+    its initialiser (`const bool left = (prm.pside == side::left); if (left) ...`)"""
+    import idioms
     g = []
     cur = n
     for a in f.ancestors(n):
         if a['k'] == 'if':
             in_then = a.get('t') is not None and any(x is cur for x in walk(a['t']))
+            c = a['c']
+            neg = ''
+            cu = unwrap(c)
+            while cu is not None and cu['k'] == 'un' and cu['op'] == '!':
+                neg = '' if neg else '!'
+                cu = unwrap(cu['e'])
+            if cu is not None and cu['k'] == 'ref':
+                r = idioms._resolve_local(f, cu)
+                if r is not cu:
+                    c = r
+                    pol = in_then != bool(neg)
+                    g.append(('' if pol else '!') + show(unwrap(c)))
+                    cur = a
+                    continue
             g.append(('' if in_then else '!') + show(a['c']))
         cur = a
     return g
